@@ -17,6 +17,7 @@
 #include "common/ev.hpp"
 #include "common/vrng.hpp"
 
+#include <fcntl.h>
 #include <sys/resource.h>
 #include <sys/wait.h>
 #include <unistd.h>
@@ -197,6 +198,8 @@ int main(int argc, char** argv) {
     std::ifstream in(argv[1]);
     if (!in) { std::perror(argv[1]); return 2; }
     ev::open(argv[2]);
+    const int rfd = ::open(argv[2], O_RDONLY);   // the trace stream is write-only: read back through a second descriptor
+    if (rfd < 0) { std::perror(argv[2]); return 2; }
     if (const char* w = std::getenv("VERIF_WATCHDOG_S")) g_watchdog_s = std::atol(w);
     ev::Cmd c;
     long line = 0;
@@ -239,7 +242,7 @@ int main(int argc, char** argv) {
             off_t keep = start;
             if (size > start) {
                 std::vector<char> buf(static_cast<size_t>(size - start));
-                if (pread(fd, buf.data(), buf.size(), start) == static_cast<ssize_t>(buf.size()))
+                if (pread(rfd, buf.data(), buf.size(), start) == static_cast<ssize_t>(buf.size()))
                     for (size_t k = buf.size(); k > 0; --k) if (buf[k - 1] == '\n') { keep = start + static_cast<off_t>(k); break; }
             }
             if (ftruncate(fd, keep) != 0) std::perror("ftruncate");
